@@ -15,7 +15,7 @@ Safety model (bank-grade, fail closed):
 import json
 import logging
 import time
-from typing import Dict, Set
+from typing import Any, Dict, Set
 
 from .file_manager import FileManager
 from .metadata_manager import MetadataManager
@@ -98,7 +98,7 @@ class GarbageCollector:
         # snapshots for good. A lost hint is fine (the scan finds the latest
         # version); a hint that points at a missing file means the table's
         # current metadata is gone: abort (fail closed).
-        self._require_hinted_metadata_present()
+        self._require_hinted_metadata_present(metadata)
 
         logger.info(f"Starting garbage collection for {self.table_path}")
 
@@ -176,14 +176,32 @@ class GarbageCollector:
         logger.info(f"Garbage collection complete. Deleted: {stats}")
         return stats
 
-    def _require_hinted_metadata_present(self) -> None:
-        """Abort if the version hint names a metadata file that is missing."""
+    def _require_hinted_metadata_present(self, metadata: Any) -> None:
+        """Abort unless the metadata the collection is about to trust is the one
+        the version hint names (when there is a hint).
+
+        refresh() treats the hint as a hint: a pointer that looks missing,
+        unreadable or dangling makes it recover "the newest metadata file" by
+        scanning. That is right for readers, but a collection deletes on what it
+        sees: a transient wrong answer about the pointer (or a missing current
+        metadata file) silently swaps in ANOTHER version - an older one, or the
+        unpublished higher-numbered file a dead writer left behind - from which
+        files of retained snapshots look unreachable. The pointer is therefore
+        resolved a second time, independently, and the collection proceeds only
+        if it names an existing file holding exactly the metadata refresh()
+        returned. No pointer at all is fine (the scan result is the table).
+        """
         mm = self.metadata_manager
         try:
             hinted = mm._read_version_hint()
-            missing = hinted is not None and not self.storage.exists(
-                f"{mm.metadata_path}/{hinted[1]}"
-            )
+            missing = False
+            differs = False
+            if hinted is not None:
+                hinted_path = f"{mm.metadata_path}/{hinted[1]}"
+                missing = not self.storage.exists(hinted_path)
+                if not missing:
+                    pointed = mm._read_metadata_file(hinted_path)
+                    differs = mm._metadata_to_dict(pointed) != mm._metadata_to_dict(metadata)
         except Exception as e:
             raise GarbageCollectionAborted(
                 f"Aborting GC: cannot verify the current metadata version: {e}. "
@@ -194,6 +212,13 @@ class GarbageCollector:
                 f"Aborting GC: the version hint names metadata file {hinted[1]!r}, which does "
                 f"not exist. The table's current metadata is missing; collecting against an "
                 f"older version would delete every file committed since. Nothing was deleted."
+            )
+        if differs:
+            raise GarbageCollectionAborted(
+                f"Aborting GC: the metadata that was loaded is not the version the hint names "
+                f"({hinted[1]!r}). The pointer could not be resolved consistently (transient "
+                f"storage failure, concurrent commit, or a leftover unpublished version); "
+                f"collecting against another version would delete live files. Nothing was deleted."
             )
 
     def _load_inflight_protection(self, inflight_timeout_ms: int) -> Set[str]:
